@@ -181,3 +181,24 @@ pub mod metric_item {
         )
     }
 }
+
+/// Scheduling points: named places where a harness-installed callback is invoked so that
+/// interleavings of threads can be forced.  Without a callback a point does nothing.
+pub mod sched {
+    use std::sync::RwLock;
+
+    type Callback = Box<dyn Fn(&'static str) + Send + Sync>;
+    static CALLBACK: RwLock<Option<Callback>> = RwLock::new(None);
+
+    pub fn set_callback(cb: Option<Callback>) {
+        *CALLBACK.write().unwrap_or_else(|e| e.into_inner()) = cb;
+    }
+
+    #[inline]
+    pub fn point(name: &'static str) {
+        let g = CALLBACK.read().unwrap_or_else(|e| e.into_inner());
+        if let Some(cb) = g.as_ref() {
+            cb(name);
+        }
+    }
+}
